@@ -1,6 +1,7 @@
 import TrionModel.Model.Asm
 import TrionModel.Props.C12Parse
 import TrionModel.Lemmas.AsmStmtPos
+import TrionModel.Lemmas.AsmDiagSrc
 /-!
 # C12 (pipeline clause) — a diagnostic raised for a statement carries the statement's file, line and column
 
@@ -159,5 +160,50 @@ example : (Task.data ⟨.u8, [109], 3, 5, 0, .ident [120], true⟩ false).at [10
 -- non-vacuity: `.addr "x";` at 3:5 of file `m` raises exactly one diagnostic there
 example : ∃ k, (addrDirective ⟨[[109]], [109]⟩ { St.init with locals := some [], localTasks := some [] } 3 5 [.str [120]]) =
     .ok (({ St.init with locals := some [], localTasks := some [] } : St).pushIn [109] 3 5 k, .err .trivial) := ⟨_, rfl⟩
+
+/-- C12.diag_pos_run  The whole-run statement, aggregated from `diag_pos` (statements), `diag_pos_task` (retries and the
+closures of `.global`, run by the loop of the file that queued them or — rescheduled — by the includer's loop or
+`finalize`) and `diag_pos_include` (the recursion), over every include depth, both task loops and `finalize`
+(Lemmas/AsmDiagSrc.lean, invariant `Psrc`):
+
+for every project `fs`, every main file and every outcome of `run`, EVERY recorded diagnostic `d` names a file of the
+project, `fs d.file = some text`, and — with `els`, `err` what that text parses into (`Parse.all (Lex.tokens text)`) —
+either `(d.line, d.col)` is the position `(el.line, el.col)` of one of the statements `el ∈ els` (which by
+`Parse.stmt_pos` is the position of the statement's first token), or `d` is the report of the tokenizer / parser error
+`err = some e` that ended the file, at the error's own position `(e.line, e.col)` (`parse_error_pos`). -/
+theorem diag_pos_run (fs : Bytes → Option Bytes) (main : Bytes) (o : Outcome) (h : run fs main = .done o) :
+    ∀ d ∈ o.diags, ∃ text lo els err, fs d.file = some text ∧ Lex.tokens text = .ok lo ∧ Parse.all lo = .done els err ∧
+      ((∃ el ∈ els, d.line = el.line ∧ d.col = el.col) ∨
+       ∃ e, err = some e ∧ d.line = e.line ∧ d.col = e.col ∧ ∃ k, d.kind = .parse k) := by
+  have hinit : Psrc fs none none St.init :=
+    ⟨(fun _ hd => by simp [St.init] at hd), (fun _ ht => by simp [St.init] at ht), (fun _ hq => by simp [St.init] at hq)⟩
+  unfold run runWith at h
+  split at h
+  · cases h
+  · rename_i data hdata
+    split at h
+    · rename_i st res ha
+      have w : Psrc fs none none st := assembleFile_src_main rfl rfl hdata hinit ha
+      split at h
+      · cases h
+        intro d hd
+        exact w.errs d (by simpa using hd)
+      · cases h
+      · split at h
+        · rename_i st' fin hf
+          cases h
+          have key : ∀ (s : St) st' fin, finalize encoder Env.init s = .ok (st', fin) → s.errors = st.errors →
+              s.globalTasks = st.globalTasks → s.localTasks = st.localTasks → Psrc fs none none st' :=
+            fun s st' fin hf he hg hl => finalize_src (fs := fs) ⟨he ▸ w.errs, hg ▸ w.gt, hl ▸ w.lt⟩ hf
+          have w2 := key _ _ _ hf rfl rfl rfl
+          intro d hd
+          exact w2.errs d (by simpa using hd)
+        all_goals cases h
+    all_goals cases h
+
+-- non-vacuity of `diag_pos_run`: the parse error that ends a file is reported at its own position, with kind `parse`
+example (fs : Bytes → Option Bytes) (enc : Encoder) (inc : Inc) (env : Env) (st : St) (e : ParseErr) :
+    ∃ st', doAssemble fs enc inc env [] (some e) st = .ok (st', .err .fatal) ∧
+      st'.errors = ⟨env.curName, e.line, e.col, .parse e.kind⟩ :: st.errors := ⟨_, rfl, rfl⟩
 
 end Trion.Asm
